@@ -272,7 +272,8 @@ func main() {
 			// the container init inherits a small descriptor limit from the host process
 			var old syscall.Rlimit
 			syscall.Getrlimit(syscall.RLIMIT_NOFILE, &old)
-			syscall.Setrlimit(syscall.RLIMIT_NOFILE, &syscall.Rlimit{Cur: uint64(n), Max: old.Max})
+			// (hard limit too: a Go program raises its soft limit to the hard one when it starts)
+			syscall.Setrlimit(syscall.RLIMIT_NOFILE, &syscall.Rlimit{Cur: uint64(n), Max: uint64(n)})
 			defer syscall.Setrlimit(syscall.RLIMIT_NOFILE, &old)
 		}
 		env, err := hx.NewEnvWith(scratch, nil, func(b *container.Builder) {
